@@ -101,7 +101,9 @@ ScalarVarClear(tn, v) ==   \* "accept", "reject" or "unspec"
   CASE v.k \in {"list", "obj"} -> IF tn \in {"String", "ID", "Boolean"} THEN "unspec" ELSE "reject"
     [] tn = "Int" ->
          CASE v.k = "int" -> IF InInt32(v.v) THEN "accept" ELSE "reject"
-           [] v.k = "str" -> IF v.v \in {"abc", ""} THEN "reject" ELSE "unspec"
+           \* whether a numeric STRING is an Int is edition-dependent; one that spells a number outside the
+           \* 32-bit range is an Int under no reading
+           [] v.k = "str" -> IF v.v \in {"abc", "", "3000000000", "4000000000", "-2147483649", "1e10"} THEN "reject" ELSE "unspec"
            [] OTHER -> "unspec"
     [] tn = "Float" ->
          CASE v.k \in {"int", "float"} -> "accept"
